@@ -2,8 +2,10 @@
 """An independent RFC 7230 message writer (requests and responses) and a mutator.  Nothing here uses httoop."""
 from __future__ import annotations
 
-METHODS_BODY = [b'POST', b'PUT', b'PATCH', b'DELETE', b'M-POST', b'REPORT']
-METHODS_NOBODY = [b'GET', b'HEAD', b'OPTIONS', b'TRACE', b'DELETE', b'M-SEARCH', b'X_Y.Z$']
+# every method the registry of RFC 7231 / WebDAV / others knows that may carry a body, and tokens over the whole method alphabet
+METHODS_BODY = [b'POST', b'PUT', b'PATCH', b'DELETE', b'M-POST', b'REPORT', b'SEARCH', b'PROPFIND', b'PROPPATCH', b'MKCOL', b'LOCK', b'OPTIONS', b'QUERY', b'ACL', b'BIND', b'MKCALENDAR',
+	b"IT'S", b'X+Y', b'PRO*PFIND', b'A%B', b'A&B', b'A^B', b'post', b'Search']
+METHODS_NOBODY = [b'GET', b'HEAD', b'OPTIONS', b'TRACE', b'DELETE', b'M-SEARCH', b'X_Y.Z$', b'SEARCH', b'PROPFIND', b'COPY', b'MOVE', b'UNLOCK', b'PURGE', b"IT'S", b'X+Y', b'A*B', b'get']
 NAMES = [b'X-A', b'Accept', b'accept-language', b'X-Custom_1', b'User-Agent', b'COOKIE', b'Via', b'x-b', b'If-None-Match', b'Cache-Control', b'Referer', b'X-Forwarded-For']
 VALUES = [b'1', b'text/html', b'a, b', b'de;q=0.5', b'x=y', b'"quoted; value"', b'\xe9t\xe9', b'', b'a b  c', b'W/"etag"', b'no-cache', b'Mozilla/5.0 (X11; Linux)', b'=?x', b'1.2.3.4']
 
